@@ -103,7 +103,7 @@ func (p *pending) panicked() any {
 }
 
 // A guard keeps a phase within its time budget when something is badly broken:
-// a case that ran into a 30 s watchdog costs half a minute, so after two such
+// a case that ran into a 20-30 s watchdog costs half a minute, so after two such
 // cases the rest of the phase is skipped (and the run says so). Wall time is
 // used for this budget decision only, never for a verdict.
 type guard struct {
@@ -124,7 +124,7 @@ func (g *guard) run(fn func()) {
 	g.mu.Unlock()
 	t0 := time.Now()
 	fn()
-	if time.Since(t0) > 25*time.Second {
+	if time.Since(t0) > 15*time.Second {
 		g.mu.Lock()
 		g.strikes++
 		g.mu.Unlock()
